@@ -375,6 +375,43 @@ def run_changed(chk, fx, prefix="C03"):
             chk.info(r, "tables/c03_changed_exempt.json: entry %s::%s not needed on this tree" % k_)
 
 
+def run_validated(chk, fx, prefix="C03"):
+    """A report step (or other integer) that a Schedule function validates is the one it acts on."""
+    r = chk.rule(prefix + ".validated", "in the schedule code, an integer parameter that a throwing range guard validates (if (step < current || step >= size) throw ...) is also used outside its guards: a function that checks the requested report step but then acts on another step variable applies the input at the wrong report step", floor=7)
+    n_fn = 0
+    for f in fx.fns:
+        if not f.get("body") or "/opm/input/eclipse/Schedule/" not in f["file"] or not f.get("params"):
+            continue
+        ints = [p_["n"] for p_ in f["params"] if p_.get("n") and re.fullmatch(r"(const )?(std::)?(size_t|int|unsigned int|unsigned long|long|std::size_t)( const)?", (p_.get("t") or "").strip())]
+        if not ints:
+            continue
+        guards = []
+
+        def collect(n):
+            if n["k"] == "If" and isinstance(n.get("cond"), dict) and any(x["k"] == "Throw" for x in walk(n["then"], skip_lambda=True)) and not any(x["k"] in ("For", "While", "ForRange") for x in walk(n["then"])):
+                guards.append(n)
+        for n in walk(f["body"]):
+            collect(n)
+        if not guards:
+            continue
+        inside = set()
+        for g in guards:
+            for x in walk(g["cond"]):
+                inside.add(id(x))
+            for x in walk(g["then"]):
+                inside.add(id(x))
+        for p_ in ints:
+            in_guard = [x for g in guards for x in walk(g["cond"]) if x["k"] == "Ref" and x["n"] == p_ and x.get("d") == "Parm"]
+            if not in_guard:
+                continue
+            outside = [x for x in walk_fn(f) if x["k"] == "Ref" and x["n"] == p_ and x.get("d") == "Parm" and id(x) not in inside]
+            n_fn += 1
+            key = "%s(%s)" % (f["q"], p_)
+            chk.instance(r, key, sample=dict(function=f["q"], parameter=p_, guard_lines=[g["l"] for g in guards if any(x["k"] == "Ref" and x["n"] == p_ for x in walk(g["cond"]))], uses_outside_guards=len(outside)))
+            if not outside:
+                chk.violation(r, key, "%s validates its parameter `%s` in a throwing guard (line %d) and never uses it again: whatever it does, it does for another value than the one that was requested and checked" % (f["q"], p_, in_guard[0]["l"]), f["file"], in_guard[0]["l"])
+
+
 def run(chk):
     units = core.library_units()
     fx = chk.facts(units)
@@ -391,6 +428,7 @@ def run(chk):
     run_inplace(chk, fx, fns)
     run_changed(chk, fx)
     run_items(chk, fx)
+    run_validated(chk, fx)
 
     # ---- C03.index
     r_idx = chk.rule("C03.index", "snapshots[e] with an arithmetic index (an earlier/later step than the one being built) is only read", floor=40)
